@@ -154,7 +154,8 @@ class Sim:
         return truth
 
     # ---- one step
-    def step(self, truth):
+    def step(self, truth, via_execute=False):
+        """one macro step through execute_once(), or through execute(max_steps=1), which is documented to be the same thing"""
         sp, it, P = self.sp, self.it, self.P
         r = StepRec()
         r.k = self.k
@@ -177,7 +178,13 @@ class Sim:
         mark = len(P.log)
         self.lastT = r.T        # whoever queues something while the step runs (a listener) does so at the step time
         try:
-            r.ms = it.execute_once()
+            if via_execute:
+                out_ = it.execute(max_steps=1)
+                r.ms = out_[0] if out_ else None
+                if len(out_) > 1:
+                    raise AssertionError('execute(max_steps=1) returned %d macro steps' % len(out_))
+            else:
+                r.ms = it.execute_once()
             r.exc = None
         except Exception as e:      # outcome of the run, judged by the checks
             r.ms = None
@@ -256,8 +263,9 @@ def standard_ops(sim, ch, tier, *, single_pending=False, delays=False, lo=5, hi=
 
     def do_step():
         truth = sim.draw_truth(gs, *p_true)
-        script.append(('step', truth))
-        return sim.step(truth)
+        via = len(script) > 0 and ops.flag(1, 6)        # now and then through execute(max_steps=1) instead of execute_once()
+        script.append(('step', truth, via))
+        return sim.step(truth, via_execute=via)
     yield do_step()
     for _ in range(n):
         kinds = [('step', 5), ('queue', 4)]
@@ -290,7 +298,7 @@ def replay_script(sim, script):
         elif op[0] == 'advance':
             sim.advance(op[1])
         else:
-            yield sim.step(op[1])
+            yield sim.step(op[1], via_execute=len(op) > 2 and op[2])
 
 
 # ----------------------------------------------------------------------------- micro-step groups
